@@ -45,8 +45,15 @@ def open_findings(prop):
     return {f["key"]: f for f in load_findings() if f.get("property") == prop and f.get("status") == "open"}
 
 
+CHECK_T0 = [0.0]
+
+
 def run_job(job, binpath, scratch, deadline_s, hang_s, idx):
     out = os.path.join(scratch, "job%d.json" % idx)
+    # the deadline is per check, not per job: a job that starts late (more jobs than workers) gets what is left
+    # of it, but never less than a fifth (it then reports exhaustive=false like any job that hits its deadline)
+    if CHECK_T0[0]:
+        deadline_s = max(deadline_s / 5.0, deadline_s - (time.time() - CHECK_T0[0]))
     cmd = [binpath, "--out=" + out, "--scratch=" + scratch, "--deadline=%g" % deadline_s,
            "--hang=%g" % hang_s] + job.args
     env = dict(os.environ)
@@ -177,6 +184,7 @@ def _main_check(spec, tier, repo, seed, replay, scratch, t0, verbose):
 
     hang_s = 60.0 if tier == "quick" else 300.0
     workers = int(os.environ.get("VERIF_JOBS", "16"))
+    CHECK_T0[0] = time.time() if tier == "thorough" and not replay else 0.0
     with ThreadPoolExecutor(max_workers=workers) as ex:
         futs = [ex.submit(run_job, j, bins[json.dumps(j.build, sort_keys=True)], scratch, deadline, hang_s, i)
                 for i, j in enumerate(jobs)]
